@@ -289,7 +289,15 @@ SoftmaxTop(A, out) ==
 R_(en, val) == IF en THEN [en |-> TRUE, val |-> val] ELSE [en |-> FALSE, val |-> Empty]
 B01(x) == x = 1
 
-BuildOps == {"from_array", "from_vec", "from_2d_array", "from_2d_vec", "new",
+(* constructions through the NATIVE API of a back end (ndarray: slice_move / slice_axis_inplace of a larger
+   array -- row offset, column offset, stepped --, invert_axis, t().to_owned(), broadcast().to_owned(),
+   remove_index; nalgebra: rows(..)/columns(..).into_owned(), remove_row, resize).  A user of the bindings
+   hands over such matrices; the buffer behind them may be larger than, offset against, or ordered
+   differently from the logical content.  The ADT only sees the logical content: row-major data `iv`. *)
+NativeBuildOps == {"nat_row_offset", "nat_col_offset", "nat_inplace", "nat_strided", "nat_reversed",
+                   "nat_t_owned", "nat_broadcast", "nat_remove_row", "nat_resize"}
+BuildOps == NativeBuildOps \cup
+            {"from_array", "from_vec", "from_2d_array", "from_2d_vec", "new",
              "row_vector_from_array", "row_vector_from_vec",
              "column_vector_from_array", "column_vector_from_vec",
              "eye", "zeros", "ones", "fill",
@@ -320,7 +328,7 @@ RejectOps == {"add", "sub", "mul", "add_mut", "sub_mut", "mul_mut", "div", "div_
 EqOps == {"eq", "approximate_eq", "v_eq", "v_approximate_eq"}
 
 Sem(op, A, B, ia, iv, iw) ==
-    CASE op \in {"from_array", "from_vec", "from_2d_array", "from_2d_vec"} ->
+    CASE op \in {"from_array", "from_vec", "from_2d_array", "from_2d_vec"} \cup NativeBuildOps ->
             R_(Len(iv) = ia[1] * ia[2], FromRowMajor(ia[1], ia[2], iv))
       [] op = "new" -> R_(Len(iv) = ia[1] * ia[2], FromColMajor(ia[1], ia[2], iv))
       [] op \in {"row_vector_from_array", "row_vector_from_vec"} -> R_(TRUE, RowVector(iv))
